@@ -282,6 +282,28 @@ def rule_e(ctx, cr):
 def rule_f(ctx, cr, rid="C17.f"):
     f = cr.need_fn("mach::runtime::Runtime::do_input")
     ctx.touch(f)
+    if rid == "C17.f":
+        # if the whole reply is pushed unsplit on some path, that path must admit count == 1
+        whole = []
+        for c in f.calls_matching(r"Vec::<T, A>::push$"):
+            d = f.describe(c.args[1])
+            if "Index" in d or "index(" in d:
+                continue            # a slice of the reply: the splitting path
+            for op, l, r, truth in f.cmp_conds_at(c.bb):
+                k = f.const_of_operand(r)
+                if isinstance(k, int) and "Vec::<T, A>::len" not in f.describe(l):
+                    whole.append((op, k, truth))
+        if whole:
+            def admits_one(op, k, t):
+                v = 1
+                res = {"Le": v <= k, "Lt": v < k, "Ge": v >= k, "Gt": v > k, "Eq": v == k,
+                       "Ne": v != k}.get(op)
+                return res is None or res == t
+            ctx.check(all(admits_one(*w) for w in whole), rid, "do_input/single-variable-whole-reply",
+                      f.span, "the unsplit reply is used when there is one variable (%s)" % whole,
+                      "the path that hands the whole reply to the variable is guarded by %s, which "
+                      "excludes a count of 1: INPUT with a single variable splits its reply at "
+                      "commas again (`A,B` for INPUT A$ is REDO FROM START)" % whole)
     redo = [b for b, s, v in f.field_stores("state")
             if f.stored_variant(v) == ("mach::runtime::State", "InputRedo")]
     ok = False
